@@ -23,6 +23,7 @@ RULE = ("(1) C11's clean networks built 60..90% class-assortative, with targets 
         "0.2*q q^T + 0.8*diag(q), CONVERGENCE_LIMIT = 0.75 |E|, vertex ids shuffled (must approach) or sorted by class (known finding K2); (2b) 'short-cross': hand-composed two-class triangle networks (60 % cross-class "
         "edges) towards a target with 80 % cross-class weight, only 0.18 |E| swaps, so that corners are still whole triangle corners; "
         "non-trivial = (1) >= 1 removed pairing that a proposal actually asked for, (2) |before - after| > 0.1; distinct = SHA-1 of the case")
+RULE += ("; rounds k-l added: " + 'families as C11 incl. the new ones; allowed-pairing clause decided before any C11 clause; a quarter of the runs with logging disabled process-wide; tiny weights scaled once per unordered pairing')
 ASSUMPTIONS = ["a pairing is unordered: (a,b) and (b,a) are removed together and a created edge is accepted if either orientation has positive weight",
                "clause (2) is about typical behaviour: decided on workloads where the measured effect is > 20x the sampling noise, verdict = plain after < before",
                "violations of C11's clauses seen by the shared monitor are not C12's to report: such a run is counted inconclusive here"]
